@@ -194,6 +194,9 @@ def run(ctx):
     # keystream rule of C11 (block counter over all eight little-endian bytes, block range, offsets), shared here
     from rules import c11
     c11.run_fill(ctx)
+    # ... and the element sampler that turns the stream into the per-candidate randomness: every buffered byte is a fresh stream
+    # byte (chunk / advance / refill discipline, shared with C11)
+    c11.run_prng(ctx)
     # the combiner adds the two verifier shares with merge_vector: shares of different lengths (different rounds) must be
     # refused, not truncated (shared with C13)
     from rules import c13
